@@ -103,7 +103,13 @@ def _insert_false_asserts(built):
             name = toks[k + 1].text
             b = first_brace_depth0(toks, k)
             if b >= 0 and toks[b].text == "{":
-                inserts.append((b, "fn " + name))
+                # Verus header statements `hide(f);` / `reveal(f);` must stay first in the body: probe after them
+                ins = b
+                while ins + 2 < n and toks[ins + 1].kind == "ident" and toks[ins + 1].text in ("hide", "reveal", "reveal_with_fuel") and toks[ins + 2].text == "(":
+                    e2 = match_close(toks, ins + 2)
+                    if e2 is None or toks[e2 + 1].text != ";": break
+                    ins = e2 + 1
+                inserts.append((ins, "fn " + name))
                 e = match_close(toks, b)
                 q = b + 1
                 while q < e:
